@@ -69,6 +69,7 @@ type Report struct {
 	Violations   []Violation       `json:"violations"`
 	Known        map[string]int64  `json:"known"` // finding id -> suppressed hits
 	KnownSample  map[string]string `json:"known_sample"`
+	KnownSigs    map[string]int64  `json:"known_sigs"` // distinct suppressed signatures (capped)
 	Inconclusive []string          `json:"inconclusive"`
 	Counters     map[string]int64  `json:"counters"`
 	Notes        []string          `json:"notes"`
@@ -77,7 +78,7 @@ type Report struct {
 
 // NewReport returns an empty report.
 func NewReport() *Report {
-	return &Report{Sigs: map[string]int64{}, Nontrivial: map[string]bool{}, Known: map[string]int64{}, KnownSample: map[string]string{},
+	return &Report{Sigs: map[string]int64{}, Nontrivial: map[string]bool{}, Known: map[string]int64{}, KnownSample: map[string]string{}, KnownSigs: map[string]int64{},
 		Counters: map[string]int64{}, violSeen: map[string]bool{}}
 }
 
@@ -123,6 +124,9 @@ func (c *Ctx) Disagree(sig, what string, replay any) bool {
 		if _, ok := c.Rep.KnownSample[id]; !ok {
 			c.Rep.KnownSample[id] = sig
 		}
+		if _, ok := c.Rep.KnownSigs[sig]; ok || len(c.Rep.KnownSigs) < 2000 {
+			c.Rep.KnownSigs[sig]++
+		}
 		return true
 	}
 	c.Rep.Violate(sig, what, replay)
@@ -154,6 +158,11 @@ func (r *Report) Merge(o *Report) {
 	}
 	for k, v := range o.Known {
 		r.Known[k] += v
+	}
+	for k, v := range o.KnownSigs {
+		if _, ok := r.KnownSigs[k]; ok || len(r.KnownSigs) < 2000 {
+			r.KnownSigs[k] += v
+		}
 	}
 	for k, v := range o.KnownSample {
 		if _, ok := r.KnownSample[k]; !ok {
@@ -352,6 +361,14 @@ func Finish(prop, tier string, seed int64, rep *Report, find *Findings, meta Met
 		tops = append(tops, fmt.Sprintf("%d x %s", t.V, t.K))
 	}
 	cov["most_frequent_signatures"] = tops
+	if len(rep.KnownSigs) > 0 {
+		var ks []string
+		for k, v := range rep.KnownSigs {
+			ks = append(ks, fmt.Sprintf("%s (x%d)", k, v))
+		}
+		sort.Strings(ks)
+		cov["signatures_suppressed_by_findings"] = ks
+	}
 	ev := map[string]any{
 		"property_id": prop,
 		"tier":        tier,
